@@ -41,13 +41,15 @@ func buildPatchExpiredSelectionPredicate(sw swamp.Swamp, filters *hydrapb.Filter
 
 	candidates := collectBucketCandidates(sw, plan.Hints)
 	set := candidateKeySet(candidates)
-	residual := plan.Residual
 
+	// The candidate set is a fast pre-selection taken before the selection lock; the whole filter
+	// is evaluated again on each candidate at claim time (a record may have been patched out of
+	// the indexed condition in between).
 	return func(t treasure.Treasure) bool {
 		if _, in := set[t.GetKey()]; !in {
 			return false
 		}
-		return evaluateNativeFilterGroup(t, residual)
+		return evaluateNativeFilterGroup(t, filters)
 	}, nil
 }
 
